@@ -42,7 +42,7 @@ Theorem C01_aesgcm_wire_format :
     Ok (output_prefix v id ++ iv ++ seal key iv ad p).
 Proof.
   intros. unfold aesgcm_enc. apply (na_enc_total seal (fun _ _ _ _ => None)); [|exact H].
-  unfold gcm_tink_max, MaxInt, lenN in *. vm_compute N.min. lia.
+  rewrite gcm_tink_max_val. unfold lenN in *. lia.
 Qed.
 Print Assumptions C01_aesgcm_wire_format.
 
@@ -59,10 +59,10 @@ Theorem C01_chacha20poly1305_round_trip :
 Proof.
   intros seal open_ HL HO v id key iv p ad c Hiv. split; intros He.
   - unfold chacha_dec. rewrite dec_prefixfirst_canon.
-    apply (na_round_trip seal open_ 12 16 chacha_seal_max (Some chacha_open_max) _ _ key iv p ad c HL HO);
+    apply (na_round_trip seal open_ 12 16 chacha_seal_max (Some chacha_open_max) (chacha_tink_max (output_prefix v id)) _ key iv p ad c HL HO);
       [intros m E; inversion E; reflexivity | exact Hiv | exact He].
   - unfold chacha_subtle_dec. rewrite dec_lenfirst_canon.
-    apply (na_round_trip seal open_ 12 16 chacha_seal_max (Some chacha_open_max) _ _ key iv p ad c HL HO);
+    apply (na_round_trip seal open_ 12 16 chacha_seal_max (Some chacha_open_max) chacha_subtle_tink_max _ key iv p ad c HL HO);
       [intros m E; inversion E; reflexivity | exact Hiv | exact He].
 Qed.
 Print Assumptions C01_chacha20poly1305_round_trip.
@@ -80,10 +80,10 @@ Theorem C01_xchacha20poly1305_round_trip :
 Proof.
   intros seal open_ HL HO v id key iv p ad c Hiv Hc. split; intros He.
   - unfold xchacha_dec. rewrite dec_lenprefix_canon by exact Hc.
-    apply (na_round_trip seal open_ 24 16 chacha_seal_max (Some chacha_open_max) _ _ key iv p ad c HL HO);
+    apply (na_round_trip seal open_ 24 16 chacha_seal_max (Some chacha_open_max) xchacha_tink_max _ key iv p ad c HL HO);
       [intros m E; inversion E; reflexivity | exact Hiv | exact He].
   - unfold xchacha_subtle_dec. rewrite dec_lenfirst_canon.
-    apply (na_round_trip seal open_ 24 16 chacha_seal_max (Some chacha_open_max) _ _ key iv p ad c HL HO);
+    apply (na_round_trip seal open_ 24 16 chacha_seal_max (Some chacha_open_max) xchacha_tink_max _ key iv p ad c HL HO);
       [intros m E; inversion E; reflexivity | exact Hiv | exact He].
 Qed.
 Print Assumptions C01_xchacha20poly1305_round_trip.
@@ -102,10 +102,10 @@ Theorem C01_aesctrhmac_round_trip :
       (etm_enc aes hmac [] k iv p ad = Ok c -> etm_subtle_dec aes hmac k c ad = Ok p).
 Proof.
   intros aes hmac hlen HA HH v id k iv p ad c Ht Hiv. split; intros He.
-  - rewrite (etm_dec_is_canon aes hmac hlen HH) by exact Ht.
+  - rewrite (etm_dec_is_canon aes hmac hlen HA HH) by exact Ht.
     exact (etm_round_trip aes hmac hlen HA HH _ k iv p ad c Ht Hiv He).
-  - rewrite (etm_subtle_dec_eq aes hmac hlen HH) by exact Ht.
-    rewrite (etm_dec_is_canon aes hmac hlen HH) by exact Ht.
+  - rewrite (etm_subtle_dec_eq aes hmac hlen HA HH) by exact Ht.
+    rewrite (etm_dec_is_canon aes hmac hlen HA HH) by exact Ht.
     exact (etm_round_trip aes hmac hlen HA HH _ k iv p ad c Ht Hiv He).
 Qed.
 Print Assumptions C01_aesctrhmac_round_trip.
@@ -113,14 +113,14 @@ Print Assumptions C01_aesctrhmac_round_trip.
 (* wire format: prefix || iv || AES-CTR(iv||0.., p) || HMAC(ad || iv||ct || be64(8|ad|))[:tag] *)
 Theorem C01_aesctrhmac_wire_format :
   forall (aes hmac : bytes -> bytes -> bytes) (hlen : nat),
-    (forall k m, length (hmac k m) = hlen) ->
+    (forall k b, length (aes k b) = 16%nat) -> (forall k m, length (hmac k m) = hlen) ->
     forall v id k iv p ad,
       (ek_tag k <= hlen)%nat -> lenN p <= MaxInt - N.of_nat (ek_iv k) ->
       let ct := aes_ctr (aes (ek_aes k)) iv p in
       etm_enc aes hmac (output_prefix v id) k iv p ad =
       Ok (output_prefix v id ++ (iv ++ ct)
           ++ firstn (ek_tag k) (hmac (ek_hmac k) (ad ++ (iv ++ ct) ++ be_bytes 8 (lenN ad * 8)))).
-Proof. intros aes hmac hlen HH v id k iv p ad Ht Hp. exact (etm_enc_ok aes hmac hlen HH _ k iv p ad Ht Hp). Qed.
+Proof. intros aes hmac hlen HA HH v id k iv p ad Ht Hp. exact (etm_enc_ok aes hmac hlen HA HH _ k iv p ad Ht Hp). Qed.
 Print Assumptions C01_aesctrhmac_wire_format.
 
 (* the MAC input determines (ad, iv||ct): no two (ad, ciphertext) pairs collide *)
